@@ -24,12 +24,13 @@ class JobInformation:
     def state(self) -> Optional[JobState]:
         if (self.path / f"{self.scriptname}.done").is_file():
             return JobState.DONE
+        if (self.path / f"{self.scriptname}.pid").is_file():
+            # (a job that is launched again keeps the failure marker of its
+            # previous run until its body starts)
+            return JobState.RUNNING
         if (self.path / f"{self.scriptname}.failed").is_file():
             return JobState.ERROR
-        if (self.path / f"{self.scriptname}.pid").is_file():
-            return JobState.RUNNING
-        else:
-            return None
+        return None
 
     def getprocess(self):
         from experimaestro.connectors import Process
